@@ -6,6 +6,7 @@ from dataclasses import dataclass
 
 from ..absint import TOP, Const, Domain, ExtRef, Interp, Tup
 from ..repo import calls_in, dotted, norm_src, walk_no_nested
+from ..match import Matcher, src as msrc
 from .common import kwarg, need_funcs
 from .C03 import local_assignments, one_shot_clause
 
@@ -95,7 +96,9 @@ def reducers_clause(model, rep, funcs):
         # the stack is the loader's own construct_dask, rechunked along axis 0 only
         cd = [c for c in calls_in(f) if isinstance(c.func, ast.Attribute) and c.func.attr == "construct_dask" and dotted(c.func.value) == "self"]
         rc = [c for c in calls_in(f) if isinstance(c.func, ast.Attribute) and c.func.attr == "rechunk"]
-        okr = len(cd) == 1 and all(norm_src(c.args[0]).startswith("('auto',) +") for c in rc if c.args)
+        MA = Matcher(f)
+        okr = len(cd) == 1 and all(MA.has("$$x.rechunk(('auto',) + $$shape)", within=None) for c in rc if c.args) and \
+            MA.count("$$x.rechunk(('auto',) + $$shape)") >= len([c for c in rc if c.args])
         rep.ob("SLOT", f.anchor, "the stack comes from self.construct_dask() and re-chunking only touches the molecule axis", okr,
                f"construct_dask calls: {len(cd)}; rechunk args: {[norm_src(c.args[0]) for c in rc if c.args]}", node=f.node, fn=f, clause="1 reducers",
                stmt="def average stack")
@@ -103,21 +106,20 @@ def reducers_clause(model, rep, funcs):
     if f is not None:
         rep.instance("SLOT.mean", f.loc())
         means = [c for c in calls_in(f) if (dotted(c.func) or "").split(".")[-1] in ("mean", "sum", "median")]
-        ok = len(means) == 1 and (dotted(means[0].func) or "").endswith("mean") and norm_src(kwarg(means[0], "axis") or ast.Constant(None)) == "0"
-        loops = [lp for lp in walk_no_nested(f.node) if isinstance(lp, ast.For) and norm_src(lp.iter) == "self"]
-        ok = ok and len(loops) == 1 and any(isinstance(c, ast.Call) and isinstance(c.func, ast.Attribute) and c.func.attr == "construct_dask" and
-                                           norm_src(c.func.value) == norm_src(loops[0].target.elts[1]) for c in ast.walk(loops[0]))
-        # key/value pairing
-        z = [c for c in ast.walk(f.node) if isinstance(c, ast.Call) and dotted(c.func) == "zip"]
-        okz = bool(z) and [norm_src(a) for a in z[0].args] == ["keys", "out"]
-        rep.ob("SLOT", f.anchor, "each group average is mean(axis=0) of that group's own stack, returned under that group's key", ok and okz,
-               f"{[norm_src(m)[:60] for m in means]}; zip {[norm_src(a) for a in z[0].args] if z else None}", node=f.node, fn=f, clause="1 reducers",
+        MG = Matcher(f)
+        b: dict = {}
+        ok, why = MG.all_of(["$tasks = []", "$keys = []", "for $key, $loader in self:\n    ...", "$keys.append($key)",
+                             "$tasks.append(da.mean($loader.construct_dask(...), axis=0))", "$out = da.compute($tasks)[0]"], b)
+        okz = ok and (MG.has("{$k: $xp.asnumpy($v) for $k, $v in zip($keys, $out)}", b) or MG.has("{$k: $v for $k, $v in zip($keys, $out)}", b))
+        ok = ok and len(means) == 1
+        rep.ob("SLOT", f.anchor, "each group average is mean(axis=0) of that group's own stack, returned under that group's key", bool(ok and okz),
+               why or f"{[norm_src(m)[:60] for m in means]}; keys and results are not zipped in the order they were appended", node=f.node, fn=f, clause="1 reducers",
                stmt="def LoaderGroup.average")
     f = funcs.get(LB + "construct_dask")
     if f is not None:
         st = [c for c in calls_in(f) if (dotted(c.func) or "").endswith("stack")]
         rep.instance("SLOT.mean", f.loc())
-        ok = len(st) == 1 and norm_src(kwarg(st[0], "axis") or ast.Constant(None)) == "0" and st[0].args and norm_src(st[0].args[0]) == "tasks"
+        ok = len(st) == 1 and Matcher(f).has("da.stack(self.construct_loading_tasks(output_shape, $$xp), axis=0)")
         rep.ob("SLOT", f.anchor, "construct_dask stacks all loading tasks along a new axis 0", ok, norm_src(st[0])[:80] if st else "", node=f.node, fn=f,
                clause="1 reducers", stmt="def construct_dask")
 
